@@ -129,7 +129,7 @@ PAY_ENDINGS = ["complete", "failed_noparts", "failed_after_partfail", "pending_t
 def pay_ending(r, kind):
     """Events from the moment the pay call is outstanding (unprocessed) to its fate."""
     ev = [{"e": "proc_next"}]           # the node starts the pay command
-    codes = [202, 203, 204, 209]
+    codes = [202, 203, 204, 208, 209]
     if kind == "complete":
         ev += [{"e": "newpart_next"}, {"e": "part_next", "st": "done"}, {"e": "payfin_next", "out": "complete"}]
     elif kind == "failed_noparts":
@@ -210,6 +210,22 @@ def straggler_case(r, ending=None):
     script += [{"e": "drain_step"}] * r.below(3) + [{"e": "release"}, {"e": "drain"}]
     c["_script"] = script
     c["family"] = c["family"].replace("story/", "straggler/")
+    return c
+
+def straggler_crash_case(r):
+    """As straggler_case, but the second set's pay is left RUNNING with a pending part when the first lifecycle's withheld
+    bookkeeping is released; then the node crashes, the unanswered HTLCs are replayed and the environment cooperates.
+    A Free write of the old lifecycle that lands here makes the restarted plugin pay while that part is pending."""
+    c = story_case(r, ending=r.choice(["failed_noparts", "failed_after_partfail", "pending_then_fail", "error_then_fail", "two_parts_both_fail"]))
+    script = c["_script"]
+    script = script[:-1] + [{"e": "drain_step"}] * r.below(4) + [{"e": "hold_unprocessed"}]
+    probe = dict(c["_probe"]); probe.pop("probe", None)
+    script += [probe, {"e": "drain"}, {"e": "proc_next"}, {"e": "newpart_next"}]
+    if r.chance(1, 2): script += [{"e": "payfin_next", "out": r.choice(["pending", "error"]), "err": "210"}, {"e": "drain_step"}, {"e": "drain_step"}]
+    script += [{"e": "release"}, {"e": "drain"}, {"e": "crash"}, {"e": "tick", "ms": 1000}, {"e": "replay_unanswered"}, {"e": "drain"}]
+    c["_script"] = script
+    c["suffix"] = [{"e": "finale", "old_parts": r.choice(["done", "fail"]), "mode": "coop"}]
+    c["family"] = c["family"].replace("story/", "straggler_crash/")
     return c
 
 def crash_variants(r, base, length, stride=1, probe=False, old_parts=None):
